@@ -26,7 +26,9 @@ CONSTANTS KindSets      \* the sets of fragment kinds to explore
 \* receiver); argrev: :style arg with :reverse (the copy goes INTO the method's source operand; additional
 \* arguments are illegal there and which operand a hook sees is undocumented, so such programs have neither)
 \* argval: :style arg on a method that declares its destination BY VALUE - the header takes a pointer all the same
-Styles == {"retptr", "retval", "arg", "argval", "recvptr", "argrev"}
+\* retie: retptr on a method that NAMES its operands the way generated code names its own helpers - the source is
+\* called e, the destination i (the variables of an element-wise slice copy); names are the user's business
+Styles == {"retptr", "retval", "arg", "argval", "recvptr", "argrev", "retie"}
 HookShapes == {[on |-> FALSE, dstPtr |-> FALSE, srcPtr |-> FALSE, err |-> FALSE, args |-> FALSE],
                [on |-> TRUE, dstPtr |-> TRUE, srcPtr |-> TRUE, err |-> FALSE, args |-> FALSE],
                [on |-> TRUE, dstPtr |-> FALSE, srcPtr |-> FALSE, err |-> FALSE, args |-> TRUE],
